@@ -265,6 +265,10 @@ def powr(x: Node, e) -> Node:
     if e == 1:
         return x
     if x.op == "const":
+        if x.val == 0 and e < 0:
+            # 1/0: no real value.  An opaque symbol that no contract can say anything about (it must sit in a branch that the
+            # path condition excludes; E.defined of an expression containing it is False)
+            return var("undefined(0**%s)" % e, R)
         v = _frac_pow(x.val, e)
         if v is not None:
             return const(v, I if (x.sort == I and v.denominator == 1 and e > 0) else R)
@@ -1023,6 +1027,8 @@ def defined(root: Node) -> Node:
             r = and_(go(c), ite(c, go(a), go(b))) if (go(a) is not TRUE or go(b) is not TRUE) else go(c)
         else:
             conds = [go(a) for a in n.args]
+            if n.op == "var" and isinstance(n.val, str) and n.val.startswith("undefined("):
+                conds.append(FALSE)
             if n.op == "pow":
                 e = n.val
                 base = n.args[0]
